@@ -275,6 +275,15 @@ func c14Scenarios(tier string) []*Scenario {
 		}
 		out = append(out, sc)
 	}
+	// concurrent Allocate calls (same new name, colliding tag sets) followed by Close: scenario M4 of C13, judged
+	// here for deadlock, panics and goroutines left behind
+	for _, sc := range c13Scenarios(tier) {
+		if strings.HasPrefix(sc.Name, "M4-") {
+			c := *sc
+			c.Property = "C14"
+			out = append(out, &c)
+		}
+	}
 	return out
 }
 
